@@ -647,7 +647,8 @@ func main() {
 	// file 3: a LATER VERSION OF FILE 2 (same path, other bytes): it is written over file 2 just before it is analysed,
 	// through the same runner state -- the texts must come from the bytes the file has at that time
 	cur = 3
-	tbs[3].WriteString("package target\n\n// this version of the file is longer\n")
+	tbs[3].WriteString("package target\n\n")
+	addc("", "// this version of the file is longer: FIXME", "\n")
 	addc("", "//fam1:zz-é-a", "\n")
 	tbs[3].WriteString("func h() {\n")
 	for i := 0; i < 8; i++ {
